@@ -58,6 +58,8 @@ def generate(rng, tier, focus):
         elif k == "view":
             op["how"] = rng.choice(["index", "iter", "neg_index"])
         elif k == "view_assign":
+            # (not the residue number: one atom of a residue numbered apart from the others is a state the library refuses
+            #  to copy -- residues are defined by a common number)
             op["field"] = rng.choice(["position", "position", "velocity", "atomid", "atomid", "position_inplace", "velocity_inplace"])
         elif k == "system":
             op["count"] = rng.randint(1, 4)
@@ -83,6 +85,7 @@ class Model:
         self.next_cell = 0
         self.objs = []         # dicts: kind, obj, cells, top, deep
         self.tops = {}         # top id -> number of tracked molecule-like objects sharing it
+        self.top_resid = {}    # top id -> residue numbers held by the TOPOLOGY (shared by plain copies, cloned by deep copies)
         self.next_top = 0
         self.dirty = {}        # cell -> set(fields) predicted by the model but not yet observed (compared with tolerance)
         self.stride = 1
@@ -132,7 +135,23 @@ def read_object(o):
                 resid, v = a.resid, a.velocity
             out.append({"pos": pos[i], "vel": None if v is None else np.array(v, dtype=float), "atomid": ids[i],
                         "resid": resid, "name": a.name, "resname": a.resname})
-        # atoms_velocities must agree with the per-atom view
+        # the object's own summaries must agree with the per-atom view
+        runs_id, runs_name = [], []
+        prev = None
+        for x in out:
+            if (x["resid"], x["resname"]) != prev:
+                prev = (x["resid"], x["resname"])
+                runs_id.append(x["resid"])
+                runs_name.append(x["resname"])
+        if kind == "res":
+            if obj.resid != out[0]["resid"] or obj.resname != out[0]["resname"]:
+                raise AssertionError(f"residue reports ({obj.resid}, {obj.resname!r}), its atoms ({out[0]['resid']}, {out[0]['resname']!r})")
+        else:
+            per = [len(r) for r in obj.residues]
+            firsts = [sum(per[:k]) for k in range(len(per))]
+            if list(obj.resids) != [out[f]["resid"] for f in firsts] or list(obj.resnames) != [out[f]["resname"] for f in firsts]:
+                raise AssertionError(f"molecule reports resids {list(obj.resids)} / resnames {list(obj.resnames)}, its atoms "
+                                     f"{[out[f]['resid'] for f in firsts]} / {[out[f]['resname'] for f in firsts]}")
         if vel is None:
             if all(x["vel"] is not None for x in out):
                 raise AssertionError("atoms_velocities is None although every atom has a velocity")
@@ -178,7 +197,9 @@ def execute(trace, ctx):
             vals.append({"pos": np.array(s["positions"][i], dtype=float),
                          "vel": None if "velocities" not in s else np.array(s["velocities"][i], dtype=float),
                          "atomid": i + 1, "resid": s["resids"][i], "name": s["atom_names"][i], "resname": s["resnames"][i]})
-        M.track("mol", mol, M.new_cells(vals), top=M.new_top(), note="seed")
+        t0 = M.new_top()
+        M.top_resid[t0] = list(s["resids"])
+        M.track("mol", mol, M.new_cells(vals), top=t0, note="seed")
     verify(ctx, M, touched=set(), expected=None, label="initial")
     M.stride = int(trace.get("verify_stride", 1))
     if M.stride > 1:
@@ -204,6 +225,10 @@ def execute(trace, ctx):
                 top = None
                 if o["kind"] in ("mol", "atom"):
                     top = M.new_top() if kind == "deep_copy" else o["top"]
+                    if kind == "deep_copy" and o["top"] in M.top_resid:
+                        M.top_resid[top] = list(M.top_resid[o["top"]])
+                        if any(a is b for a, b in zip(new.molecule_top, o["obj"].molecule_top)):
+                            ctx.violate(P, "isolation", "a deep copy shares topology atom objects with the original", key="deep_copy:top")
                 M.track(o["kind"], new, cells, top=top, note=kind)
                 ctx.op(kind, o["kind"])
                 verify(ctx, M, set(), None, kind)
@@ -345,6 +370,8 @@ def execute(trace, ctx):
                         lst = [rng.randint(1, 9000) for _ in range(nres)]
                         o["obj"].resids = list(lst)
                         vals = [x for x, m in zip(lst, per) for _ in range(m)]
+                    if o["top"] in M.top_resid:
+                        M.top_resid[o["top"]] = list(vals)       # (the molecule's setter numbers its topology as well)
                 else:
                     v = rng.randint(1, 9000)
                     o["obj"].resid = v
@@ -474,6 +501,7 @@ def execute(trace, ctx):
                     ctx.violate(P, "system-handout", f"System recognised {len(system)} molecules, the file has {op['count']}")
                     continue
                 top = M.new_top()
+                M.top_resid[top] = list(s["resids"])
                 if op["how"] == "iter":
                     handed = [(m, mol) for m, mol in enumerate(system)]
                 elif op["how"] == "slice":
@@ -550,6 +578,16 @@ def verify(ctx, M, touched, expected, label, force=False):
         except AssertionError as e:
             ctx.violate(P, "inconsistent-object", f"after {label}: object {oi} ({o['kind']}, {o['note']}): {e}")
             return False
+        if o["kind"] == "mol" and o.get("top") in M.top_resid and o["note"] != "view":
+            try:
+                got_top = [a.resid for a in o["obj"].molecule_top]
+            except Exception as e:
+                got_top = repr(e)
+            if got_top != M.top_resid[o["top"]]:
+                ctx.violate(P, "isolation", f"after {label}: the topology of object {oi} ({o['note']}) holds residue numbers "
+                                            f"{got_top if isinstance(got_top, str) else got_top[:8]}, expected {M.top_resid[o['top']][:8]} (plain copies share "
+                                            f"the topology, deep copies own theirs)", key=key_label.split(":")[0] + ":top_resid")
+                return False
         if len(vals) != len(o["cells"]):
             ctx.violate(P, "atom-count-changed", f"after {label}: object {oi} has {len(vals)} atoms, model {len(o['cells'])}")
             return False
